@@ -169,6 +169,13 @@ def canonical_spec(eng, f, spec):
 
 
 def check(eng, R, rule, cname, fname, kind, spec, target=None, when=None, what="", index=None, not_none=True, rename=None, known=(), inline_helpers=True):
+    """one formula obligation; a formula that cannot be read (vocabulary unknown, nothing to extract) is an analysis error of this obligation only - the other rules
+    of the property still run (Run.guard)"""
+    with R.guard("%s %s.%s" % (rule, cname or "", fname)):
+        _check(eng, R, rule, cname, fname, kind, spec, target, when, what, index, not_none, rename, known, inline_helpers)
+
+
+def _check(eng, R, rule, cname, fname, kind, spec, target=None, when=None, what="", index=None, not_none=True, rename=None, known=(), inline_helpers=True):
     p = eng.p
     f = get_func(p, cname, fname)
     # the path-sensitive kinds read the canonical form (inline_helpers=False: helper calls stay calls, the specification names them)
